@@ -32,21 +32,48 @@ theorem ensureSingle_pos (cfg : Cfg) (x : LC) (s : St) (h : isSingle cfg x = tru
     ensureSingle cfg x s = (x, s) := by
   simp [ensureSingle, h]
 
-theorem ensureSingle_neg (cfg : Cfg) (x : LC) (s : St) (h : isSingle cfg x = false) :
+theorem ensureSingle_neg (cfg : Cfg) (x : LC) (s : St) (h : isSingle cfg x = false) (hg : s.guard = none) :
     ensureSingle cfg x s =
       (⟨x.value, [(1, nextSid s)]⟩,
        addConstraint [] [] (Sig.sub cfg.p [(1, nextSid s)] x.sig) (privval x.value s).2) := by
-  simp [ensureSingle, h, privval_eq]
+  simp [ensureSingle, h, privval_eq, hg]
+
+/-- `ensure_single` on a linear combination it does not accept, with guard `g` active -/
+theorem ensureSingle_guarded (cfg : Cfg) (x : LC) (s : St) (h : isSingle cfg x = false) (g : LC)
+    (hg : s.guard = some g) :
+    ensureSingle cfg x s =
+      (⟨x.value, [(1, nextSid s)]⟩,
+       addConstraint g.sig [(1, nextSid (privval x.value s).2)] []
+        (addConstraint [] [] (Sig.add (Sig.sub cfg.p [(1, nextSid s)] x.sig) [(1, nextSid (privval x.value s).2)])
+          (privval 0 (privval x.value s).2).2)) := by
+  simp [ensureSingle, h, privval_eq, hg]
 
 /-- everything but the three files, the flush pointer and the counters is left alone -/
 def SameFrame (s s' : St) : Prop := s'.ctx = s.ctx ∧ s'.stack = s.stack ∧ s'.ios = s.ios
+
+/-- the guard in effect is one of the `LinComb`s the history is judged with -/
+def GuardOK (K : Hyp) (s : St) : Prop := ∀ g, s.guard = some g → g ∈ K.Ls
 
 theorem SameFrame.refl (s : St) : SameFrame s s := ⟨rfl, rfl, rfl⟩
 theorem SameFrame.trans {s s' s'' : St} (h1 : SameFrame s s') (h2 : SameFrame s' s'') : SameFrame s s'' :=
   ⟨h2.1.trans h1.1, h2.2.1.trans h1.2.1, h2.2.2.trans h1.2.2⟩
 
+@[simp] theorem privval_guard (v : Int) (s : St) : (privval v s).2.guard = s.guard := rfl
+@[simp] theorem addConstraint_guard (a b c : Sig) (s : St) : (addConstraint a b c s).guard = s.guard := rfl
+
+theorem ensureSingle_guard (cfg : Cfg) (x : LC) (s : St) : (ensureSingle cfg x s).2.guard = s.guard := by
+  unfold ensureSingle
+  split
+  · rfl
+  · cases hg : s.guard <;> simp [hg]
+
+theorem ensureAll_guard (cfg : Cfg) (xs : List LC) (s : St) : (ensureAll cfg xs s).2.guard = s.guard := by
+  induction xs generalizing s with
+  | nil => rfl
+  | cons x xs ih => simp only [ensureAll]; rw [ih, ensureSingle_guard]
+
 theorem ensureSingle_spec (cfg : Cfg) (K : Hyp) (hp : K.p = cfg.p) (x : LC) (s : St)
-    (hx : isSingle cfg x = false → x ∈ K.Ls) :
+    (hx : isSingle cfg x = false → x ∈ K.Ls) (hgd : GuardOK K s) :
     Stands cfg (ensureSingle cfg x s).2 x (ensureSingle cfg x s).1 ∧
     Step K s (ensureSingle cfg x s).2 ∧ SameFrame s (ensureSingle cfg x s).2 := by
   cases h : isSingle cfg x with
@@ -54,25 +81,42 @@ theorem ensureSingle_spec (cfg : Cfg) (K : Hyp) (hp : K.p = cfg.p) (x : LC) (s :
     rw [ensureSingle_pos _ _ _ h]
     exact ⟨Or.inl ⟨h, rfl⟩, Step.refl s, SameFrame.refl s⟩
   | false =>
-    rw [ensureSingle_neg _ _ _ h]
-    refine ⟨Or.inr ⟨h, nextSid s, rfl, by simp⟩, ?_, ⟨rfl, rfl, rfl⟩⟩
-    refine Step.of_fields [(nextSid s, x.value)] [] [conLine [] [] (Sig.sub cfg.p [(1, nextSid s)] x.sig)]
-      (by simp) (by simp) (by simp) (Or.inl (by simp)) ?_
-    intro l hl E hE hok hext ht
-    simp only [List.mem_singleton] at hl
-    subst hl
-    rw [← hp, ← hE]
-    exact good_ensure E hok _ x (hext.1 _ (by simp)) (ht.2 _ (hx h))
+    cases hg : s.guard with
+    | none =>
+      rw [ensureSingle_neg _ _ _ h hg]
+      refine ⟨Or.inr ⟨h, nextSid s, rfl, by simp⟩, ?_, ⟨rfl, rfl, rfl⟩⟩
+      refine Step.of_fields [(nextSid s, x.value)] [] [conLine [] [] (Sig.sub cfg.p [(1, nextSid s)] x.sig)]
+        (by simp) (by simp) (by simp) (Or.inl (by simp)) ?_
+      intro l hl E hE hok hext ht
+      simp only [List.mem_singleton] at hl
+      subst hl
+      rw [← hp, ← hE]
+      exact good_ensure E hok _ x (hext.1 _ (by simp)) (ht.2 _ (hx h))
+    | some g =>
+      rw [ensureSingle_guarded _ _ _ h g hg]
+      refine ⟨Or.inr ⟨h, nextSid s, rfl, by simp⟩, ?_, ⟨rfl, rfl, rfl⟩⟩
+      refine Step.of_fields [(nextSid s, x.value), (nextSid (privval x.value s).2, 0)] []
+        [conLine [] [] (Sig.add (Sig.sub cfg.p [(1, nextSid s)] x.sig) [(1, nextSid (privval x.value s).2)]),
+         conLine g.sig [(1, nextSid (privval x.value s).2)] []]
+        (by simp) (by simp) (by simp) (Or.inl (by simp)) ?_
+      intro l hl E hE hok hext ht
+      simp only [List.mem_cons, List.not_mem_nil, or_false] at hl
+      rcases hl with rfl | rfl
+      · rw [← hp, ← hE]
+        exact good_ensure_guarded E hok _ _ x (hext.1 _ (by simp)) (hext.1 _ (by simp)) (ht.2 _ (hx h))
+      · exact good_guard_dummy E hok _ g (hext.1 _ (by simp)) (ht.2 _ (hgd g hg))
 
 theorem ensureAll_spec (cfg : Cfg) (K : Hyp) (hp : K.p = cfg.p) (xs : List LC) (s : St)
-    (hx : ∀ x ∈ xs, isSingle cfg x = false → x ∈ K.Ls) :
+    (hx : ∀ x ∈ xs, isSingle cfg x = false → x ∈ K.Ls) (hgd : GuardOK K s) :
     List.Forall₂ (Stands cfg (ensureAll cfg xs s).2) xs (ensureAll cfg xs s).1 ∧
     Step K s (ensureAll cfg xs s).2 ∧ SameFrame s (ensureAll cfg xs s).2 := by
   induction xs generalizing s with
   | nil => exact ⟨List.Forall₂.nil, Step.refl s, SameFrame.refl s⟩
   | cons x xs ih =>
-    obtain ⟨h1, h2, h3⟩ := ensureSingle_spec cfg K hp x s (hx x (by simp))
-    obtain ⟨g1, g2, g3⟩ := ih (ensureSingle cfg x s).2 (fun y hy => hx y (by simp [hy]))
+    obtain ⟨h1, h2, h3⟩ := ensureSingle_spec cfg K hp x s (hx x (by simp)) hgd
+    have hgd' : GuardOK K (ensureSingle cfg x s).2 := by
+      intro g hg; rw [ensureSingle_guard] at hg; exact hgd g hg
+    obtain ⟨g1, g2, g3⟩ := ih (ensureSingle cfg x s).2 (fun y hy => hx y (by simp [hy])) hgd'
     simp only [ensureAll]
     exact ⟨List.Forall₂.cons (h1.mono g2.wires_sub) g1, h2.trans g2, h3.trans g3⟩
 
@@ -91,9 +135,9 @@ structure BlockSpec (cfg : Cfg) (K : Hyp) (bn : String) (vcs : List LC) (rnd1 : 
   rnd : ((s.ctx, "rnd1_" ++ bn), rnd1) ∈ r.2.wires
 
 theorem declareBlock_spec (cfg : Cfg) (K : Hyp) (hp : K.p = cfg.p) (bn : String) (vcs : List LC)
-    (rnd1 rnd2 : Int) (s : St) (hx : ∀ x ∈ vcs, isSingle cfg x = false → x ∈ K.Ls) :
+    (rnd1 rnd2 : Int) (s : St) (hx : ∀ x ∈ vcs, isSingle cfg x = false → x ∈ K.Ls) (hgd : GuardOK K s) :
     BlockSpec cfg K bn vcs rnd1 s (declareBlock cfg bn vcs rnd1 rnd2 s) := by
-  obtain ⟨h1, h2, h3⟩ := ensureAll_spec cfg K hp vcs s hx
+  obtain ⟨h1, h2, h3⟩ := ensureAll_spec cfg K hp vcs s hx hgd
   have hctx : (ensureAll cfg vcs s).2.ctx = s.ctx := h3.1
   let s1 := (ensureAll cfg vcs s).2
   have e : declareBlock cfg bn vcs rnd1 rnd2 s =
@@ -118,6 +162,11 @@ theorem declareBlock_spec (cfg : Cfg) (K : Hyp) (hp : K.p = cfg.p) (bn : String)
   · show ((s.ctx, _), rnd1) ∈ _
     rw [← hctx]; simp [flush, emit, printwire, s1]
 
+theorem declareBlock_guard (cfg : Cfg) (bn : String) (vcs : List LC) (rnd1 rnd2 : Int) (s : St) :
+    (declareBlock cfg bn vcs rnd1 rnd2 s).2.guard = s.guard := by
+  show (ensureAll cfg vcs s).2.guard = s.guard
+  exact ensureAll_guard cfg vcs s
+
 /-- what `vc_glue` leaves behind -/
 structure GlueSpec (cfg : Cfg) (K : Hyp) (c1 c2 : String) (vals : List (LC × LC)) (rndv : Int) (s s' : St)
     (bn1 bn2 : String) (vs1 vs2 : List LC) : Prop where
@@ -141,17 +190,21 @@ theorem step_bump {K : Hyp} (s : St) (c : String) : Step K s (bump c s) :=
 theorem vcGlue_spec (cfg : Cfg) (K : Hyp) (hp : K.p = cfg.p) (c1 c2 : String) (vals : List (LC × LC))
     (rndv r2a r2b : Int) (s : St)
     (h1 : ∀ x ∈ vals.map Prod.fst, isSingle cfg x = false → x ∈ K.Ls)
-    (h2 : ∀ x ∈ vals.map Prod.snd, isSingle cfg x = false → x ∈ K.Ls) :
+    (h2 : ∀ x ∈ vals.map Prod.snd, isSingle cfg x = false → x ∈ K.Ls) (hgd : GuardOK K s) :
     ∃ bn1 bn2 vs1 vs2, GlueSpec cfg K c1 c2 vals rndv s (vcGlue cfg c1 c2 vals rndv r2a r2b s) bn1 bn2 vs1 vs2 := by
   let s1 : St := { s with ctx := c1 }
   let bn1 := toString (dget s1.ctr c1)
   let s2 := bump c1 s1
-  have A := declareBlock_spec cfg K hp bn1 (vals.map Prod.fst) rndv r2a s2 h1
+  have A := declareBlock_spec cfg K hp bn1 (vals.map Prod.fst) rndv r2a s2 h1 hgd
   let s3 := (declareBlock cfg bn1 (vals.map Prod.fst) rndv r2a s2).2
   let s4 : St := { s3 with ctx := c2 }
   let bn2 := toString (dget s4.ctr c2)
   let s5 := bump c2 s4
-  have B := declareBlock_spec cfg K hp bn2 (vals.map Prod.snd) rndv r2b s5 h2
+  have hgd5 : GuardOK K s5 := by
+    intro g hg
+    have : s5.guard = s.guard := declareBlock_guard cfg bn1 (vals.map Prod.fst) rndv r2a s2
+    rw [this] at hg; exact hgd g hg
+  have B := declareBlock_spec cfg K hp bn2 (vals.map Prod.snd) rndv r2b s5 h2 hgd5
   let s6 := (declareBlock cfg bn2 (vals.map Prod.snd) rndv r2b s5).2
   let s7 : St := { s6 with ctx := s.ctx }
   have e : vcGlue cfg c1 c2 vals rndv r2a r2b s = flush (emit (glueLine c1 bn1 c2 bn2) s7) := rfl
@@ -184,6 +237,11 @@ theorem vcGlue_spec (cfg : Cfg) (K : Hyp) (hp : K.p = cfg.p) (c1 c2 : String) (v
     · show s6.ios = s.ios
       have := B.frame.2.2; have := A.frame.2.2
       simp_all [s6, s5, s4, s3, s2, s1, bump]
+
+theorem vcGlue_guard (cfg : Cfg) (c1 c2 : String) (vals : List (LC × LC)) (rndv r2a r2b : Int) (s : St) :
+    (vcGlue cfg c1 c2 vals rndv r2a r2b s).guard = s.guard := by
+  unfold vcGlue
+  simp only [flush, emit, bump, declareBlock_guard]
 
 /-! ## argument and result copies -/
 
@@ -253,4 +311,15 @@ theorem copyRets_spec (K : Hyp) (args : List Arg) (s : St) :
       obtain ⟨g1, g2, g3, g4⟩ := ih s
       exact ⟨by simp [g1, isL, hk], g2, g3, g4⟩
 
+theorem copyArgs_guard (args : List Arg) (s : St) : (copyArgs args s).2.guard = s.guard := by
+  induction args generalizing s with
+  | nil => rfl
+  | cons a args ih => cases hk : a.kind <;> simp [copyArgs, hk, ih]
+
+theorem copyRets_guard (args : List Arg) (s : St) : (copyRets args s).2.guard = s.guard := by
+  induction args generalizing s with
+  | nil => rfl
+  | cons a args ih => cases hk : a.kind <;> simp [copyRets, hk, ih]
+
 end Pysnark.Qaptools
+
